@@ -20,6 +20,7 @@ type MFCase struct {
 	Out    string     `json:"out"`
 	Nul    bool       `json:"nul"`
 	BadAt  int        `json:"bad_at"` // index of a file replaced by malformed text, -1 for none
+	Cut    int        `json:"cut,omitempty"` // > 0: the malformed file is the well-formed text cut off after that many per mille of its bytes
 }
 
 var mfFormats = []string{"yaml", "json", "props", "toml", "lua", "xml", "csv", "tsv"}
@@ -37,6 +38,9 @@ func genMF(t *rapid.T) MFCase {
 	}
 	if rapid.IntRange(0, 3).Draw(t, "bad") == 0 {
 		c.BadAt = rapid.IntRange(1, len(c.Files)-1).Draw(t, "badat")
+		if rapid.Bool().Draw(t, "truncated") {
+			c.Cut = rapid.IntRange(100, 950).Draw(t, "cut")
+		}
 	}
 	return c
 }
@@ -109,7 +113,13 @@ func checkMF(c MFCase) hx.Verdict {
 		p := filepath.Join(dir, fmt.Sprintf("f%d.%s", i, c.Format))
 		txt := mfText(c.Format, kv)
 		if i == bad {
-			txt = mfMalformed[c.Format]
+			if c.Cut > 0 && (c.Format == "xml" || c.Format == "json") && len(txt) > 8 {
+				// a download that broke off: every proper prefix of these texts (past the opening bracket) is malformed
+				n := 2 + (len(txt)-4)*c.Cut/1000
+				txt = txt[:n]
+			} else {
+				txt = mfMalformed[c.Format]
+			}
 		}
 		_ = os.WriteFile(p, []byte(txt), 0o644)
 		files = append(files, p)
